@@ -66,16 +66,34 @@ def value(v, env):
     if v.kind == "ext":
         fn = v.name.split(".")[-1]
         call = v.eff[0]
-        args = [value(a, env) for a in call[1]]
         kw = dict(call[2])
-        if fn == "diff":
+        if fn in ("broadcast_to", "reshape", "full_like", "empty_like", "zeros_like"):
+            args = [value(call[1][0], env)]  # the shape argument is immaterial for a single column
+        else:
+            args = [value(a, env) for a in call[1]]
+        if fn in ("broadcast_to",):
+            cur = args[0]
+        elif fn == "argsort":
+            s = args[0]
+            cur = sorted(range(len(s)), key=lambda i: s[i])  # stable, like kind='stable' (ties keep their order)
+        elif fn == "sort":
+            cur = sorted(args[0])
+        elif fn in ("take_along_axis", "take"):
+            cur = [args[0][i] for i in args[1]]
+        elif fn == "log":
+            import math
+
+            cur = [math.log(x) for x in args[0]] if isinstance(args[0], list) else math.log(args[0])
+        elif fn == "arange":
+            cur = list(range(int(args[0])))
+        elif fn == "diff":
             s = args[0]
             cur = [b - a for a, b in zip(s[:-1], s[1:])]
         elif fn in ("all", "alltrue"):
             cur = all(args[0])
         elif fn == "any":
             cur = any(args[0])
-        elif fn in ("asarray", "array", "atleast_1d", "ravel"):
+        elif fn in ("asarray", "array", "atleast_1d", "ravel", "asanyarray", "ascontiguousarray", "copy"):
             cur = args[0]
         elif fn in ("sign",):
             cur = [(x > 0) - (x < 0) for x in args[0]]
@@ -99,7 +117,16 @@ def value(v, env):
         op = e[0]
         if op == "getitem":
             k = e[1]
-            cur = _slice(cur, value(k, env) if isinstance(k, Obj) else k)
+            if isinstance(k, tuple) and len(k) == 2 and k[0] is Ellipsis and isinstance(k[1], Obj):
+                k = k[1]
+            if isinstance(k, Obj):
+                k = value(k, env)
+                if isinstance(k, list) and k and all(isinstance(i, int) and not isinstance(i, bool) for i in k):
+                    cur = [cur[i] for i in k]  # integer-array indexing
+                    continue
+            cur = _slice(cur, k)
+        elif op in ("copy", "astype-same"):
+            pass
         elif op == "invert":
             cur = [not x for x in cur] if isinstance(cur, list) else (not cur)
         elif op in _CMP:
